@@ -7,7 +7,7 @@ from vlib import Infra, read_ndjson, tlc
 
 
 def validate(ctx, module, cfg_text, path, name, keyfn, what="trace",
-             max_rejects=6, segment_op=None):
+             max_rejects=6, segment_op=None, context_lines=12):
     """Runs TLC; on a rejected line reports keyfn(line) and, if segment_op is
     given (an "op" value that starts a new independent segment), removes the
     offending segment and continues so that the rest is still checked.
@@ -39,7 +39,7 @@ def validate(ctx, module, cfg_text, path, name, keyfn, what="trace",
             key = keyfn(ln)
         ctx.report(key, "line %d of the %s is not explained by %s.tla: %s" %
                    (at, what, module, json.dumps(ln)[:500]),
-                   {"line": ln, "context": cur[max(0, at - 12):at + 2]})
+                   {"line": ln, "context": cur[max(0, at - context_lines):at + 2]})
         if segment_op is None or attempt == max_rejects:
             break
         # drop the segment containing the bad line
